@@ -88,11 +88,23 @@ def check(col, prog, tier, profile, fixture=None):
                 col.ok("I2", b.loc(), key, "no overflow assertion: minimum / all-ones cannot panic", nontrivial=False)
             else:
                 col.violation("I2", key, b.loc(), "%s contains a checked arithmetic operation: it panics in debug builds at the signed minimum / all-ones" % b.path)
-            I = util.analyse(b)
+            consts_ = [c_ for c_ in crate.bodies if not c_.is_closure and c_.name in ("zero", "ones") and c_.path.startswith("<%s as masks::IterMasks>" % ty)]
+            I = util.analyser(consts_)(b)
             selfp = ("deref", ("param", 1, I.names.get(1)))
             x = ("param", 2, I.names.get(2))
             old = ("load", ("m0",), selfp)
             okn = oks = False
+            nbits = {"8": 8, "16": 16, "32": 32, "64": 64, "128": 128, "size": 64}[ty.lstrip("iu")]
+
+            def all_ones(k):
+                if k == ("un", "Not", mk_int(0)):
+                    return True
+                if k[0] == "int":
+                    return k[1] in (-1, (1 << nbits) - 1)
+                if k[0] == "call" and str(k[1]).endswith("from_le_bytes"):
+                    return True
+                return False
+
             why = ""
             for st in I.final_states:
                 r = util.ret_term(st)
@@ -102,6 +114,7 @@ def check(col, prog, tier, profile, fixture=None):
                         okn = ("eq", ("bin", "Eq", old, mk_int(0)), 1) in st.facts and not stores
                     else:
                         okn = any(f[0] == "eq" and f[2] == 1 and isinstance(f[1], tuple) and f[1][0] == "bin" and f[1][1] == "Eq" and f[1][3] == mk_int(0) and f[1][2][0] == "call" and str(f[1][2][1]).endswith("count_zeros") for f in st.facts) and not stores
+                        okn = okn or (any(f[0] == "eq" and f[2] == 1 and isinstance(f[1], tuple) and f[1][0] == "bin" and f[1][1] == "Eq" and ((f[1][2] == old and all_ones(f[1][3])) or (f[1][3] == old and all_ones(f[1][2]))) for f in st.facts) and not stores)
                 elif r[0] == "agg" and r[1][3] == "Some":
                     v = stores[-1].val if stores else None
                     if v is not None and v[0] == "bin":
@@ -144,7 +157,11 @@ def check(col, prog, tier, profile, fixture=None):
             ch = [e for e in evs if e.extra.get("name") == "chain"]
             if ch:
                 a0, a1 = ch[0].args
-                ok = a0[0] == "call" and str(a0[1]).endswith("from_fn") and a1[0] == "agg" and a1[1] == "array" and len(a1[2]) == 1 and a1[2][0][0] == "call" and str(a1[2][0][1]).endswith("IterMasks::" + sent) and r == ch[0].res
+                # the tail yields exactly the sentinel once: [sent()] or iter::once(sent()) / Some(sent())
+                tail_arr = a1[0] == "agg" and a1[1] == "array" and len(a1[2]) == 1 and a1[2][0][0] == "call" and str(a1[2][0][1]).endswith("IterMasks::" + sent)
+                tail_once = a1[0] == "call" and str(a1[1]).endswith("iter::once") and a1[2] and a1[2][0][0] == "call" and str(a1[2][0][1]).endswith("IterMasks::" + sent)
+                tail_some = a1[0] == "agg" and isinstance(a1[1], tuple) and a1[1][3] == "Some" and a1[2][0][0] == "call" and str(a1[2][0][1]).endswith("IterMasks::" + sent)
+                ok = a0[0] == "call" and str(a0[1]).endswith("from_fn") and (tail_arr or tail_once or tail_some) and r == ch[0].res
                 cl = crate.closures_of(b)
                 ok = ok and len(cl) == 1 and any(t["fn"].get("name") == stepper for bb, t in cl[0].calls())
                 # the closure starts from x and steps against x
